@@ -23,7 +23,7 @@ def main():
                 common.log(out[-3000:])
                 common.log("setup: ocaml build of %s failed" % eng)
                 return 1
-    for prof in ("debug",):
+    for prof in ("debug", "release"):     # release: nesting depths the unoptimised parser budget never reaches (C10)
         ok, out, _ = common.build_harness(prof)
         if not ok:
             common.log(out[-3000:])
